@@ -13,13 +13,14 @@ class WorkersFamily(Family):
                "real FIFOs (mkfifo), real channels of the stated capacities"]
     assumptions = ["bounded time = return within 4 s of the cancellation (measured ~100 us); deliveries are watched for 60 ms after the return",
                    "observation R:<returned>:<late deliveries>:<non-nil error>:<was blocked when cancelled>"]
-    rule = "each worker (audit pipe ingester, sshd pipe ingester, audit processor) in each blocking state (waiting for a writer, reading an idle pipe, handing downstream with the buffer empty / partly filled / full and no consumer, unready correlator, processor idle / busy on a long queue), capacities 0,1,4 (thorough: up to 10000), repeated; every case is non-trivial"
+    rule = "each worker (audit pipe ingester, sshd pipe ingester, audit processor) in each blocking state (waiting for a writer, reading an idle pipe, reading an idle pipe after a consumer stall of 1.3 s or a burst of 400 records, handing downstream with the buffer empty / partly filled / full and no consumer, unready correlator, processor idle / busy on a long queue), capacities 0,1,4 (thorough: up to 10000), repeated; every case is non-trivial"
 
     def harness_line(self, c):
         return "%s %s %s %d %d" % (c["id"], c["worker"], c["state"], c["cap"], c["fill"])
 
     def driver_line(self, c, impl_obs):
-        s = self.harness_line(c)
+        # whatever happened before, a worker whose pipe has gone idle is in the model's state "reading"
+        s = self.harness_line(c).replace(" afterstall ", " reading ").replace(" afterburst ", " reading ")
         if impl_obs is not None:
             s += " obs=" + impl_obs
         return s
@@ -54,6 +55,11 @@ class WorkersFamily(Family):
                     cs.append(dict(worker="audit", state="handing", cap=cap, fill=fill, rep=rep))
                     cs.append(dict(worker="audit", state="reading", cap=cap, fill=fill, rep=rep))
             cs.append(dict(worker="sshd", state="handing", cap=0, fill=0, rep=rep))
+            if rep == 0 or not quick:
+                # the idle read reached through a history: a consumer that stalled for 1.3 s and then caught up; a burst
+                for w in ("audit", "sshd"):
+                    cs.append(dict(worker=w, state="afterstall", cap=1 if w == "audit" else 0, fill=0, rep=rep))
+                    cs.append(dict(worker=w, state="afterburst", cap=4 if w == "audit" else 0, fill=0, rep=rep))
             cs.append(dict(worker="proc", state="idle", cap=0, fill=0, rep=rep))
             cs.append(dict(worker="proc", state="busy", cap=0, fill=60000, rep=rep))
             cs.append(dict(worker="proc", state="busy", cap=0, fill=200000, rep=rep))
